@@ -152,6 +152,13 @@ def d2(ctx, F):
             again = [x for x in od.calls() if x.bb in od.reachable(m["None"]) and strip_generics(x.callee) in (TRAIT + "::get_headers", TRAIT + "::reestablish_connection")]
             ok = vs == ["Exhausted"] and not again
         ctx.check(ok, "C12.D2.exhaustion-pubsub", "pubsub:exhaustion", "an exhausted budget puts the pub/sub wrapper into Exhausted and schedules no attempt", c.span)
+    # on_disconnect changes the wrapper's state (new attempt scheduled, or Exhausted) and its callers then return Pending: every
+    # path through it must wake the task, otherwise the new state is never acted upon (a hang instead of TooManyRetries)
+    wakes = [c.bb for c in od.calls() if strip_generics(c.callee) in ("core::task::wake::Waker::wake_by_ref", "core::task::wake::Waker::wake")]
+    rets = od.returns()
+    unwoken = [r for r in rets if r in flow.reach_avoiding(od, [0], wakes)]
+    ctx.check(bool(wakes) and not unwoken, "C12.D2.exhaustion-wakes", "pubsub:state-change-without-wake",
+              "every path through on_disconnect (next attempt scheduled or budget exhausted) wakes the task before returning", od.span)
     for meth, trait in (("poll_ready", "futures_sink::Sink"), ("poll_next", "futures_core::stream::Stream"), ("poll_close", "futures_sink::Sink")):
         b = F.impl_method(trait, KA + "pubsub::KeepAlive", meth)
         ctx.touch(b)
@@ -198,6 +205,27 @@ def d2(ctx, F):
     ok = all(table.get(k) == v for k, v in expect.items()) and quic_ok and dflt == ({False}, []) and set(table) <= {"IoError", "OpenStream", "Quic", "_"}
     ctx.check(ok, "C12.D2.classification", "recoverable-table", "is_recoverable_error classifies exactly: IoError->is_disconnect_error, Quic(ConnectionError)->true, "
               "OpenStream->is_bind_error, everything else->false (found %s, default %s)" % (table, dflt), ire.span)
+    # the classification only works on errors that reach it unchanged: a transport error met while waiting for the registration
+    # acknowledgement (handle_reply's `Some(Err(e))`) must be returned as it is, not re-wrapped as a (non-recoverable) OpenStream error
+    hr = F.inlined(F.one_body(r"^selium::streams::handle_reply::\{closure#0\}$"))
+    ctx.touch(hr)
+    passthrough = False
+    for i, j, pl, rv, s in K.aggregates(hr, "core::result::Result"):
+        if rv["variant"] != "Err" or pl["l"] != 0:
+            continue
+        o = rv["ops"][0]
+        r = flow.root(hr, o)
+        pls = []
+        if o.get("k") in ("copy", "move"):
+            pls.append(o["pl"])
+        if r[0] == "rv" and r[1]["k"] == "use" and r[1]["op"].get("k") in ("copy", "move"):
+            pls.append(r[1]["op"]["pl"])
+        for q in pls:
+            names = [e.get("vn") for e in q["p"] if isinstance(e, dict) and "v" in e]
+            if names == ["Some", "Err"]:
+                passthrough = True
+    ctx.check(passthrough, "C12.D2.transport-error-unchanged", "handle_reply:transport-error-rewrapped",
+              "handle_reply returns a stream error met during registration unchanged (so that a connection lost mid-registration stays recoverable)", hr.span)
     ide = F.body(KA + "helpers::is_disconnect_error")
     ctx.touch(ide)
     ibe = F.body(KA + "helpers::is_bind_error")
@@ -318,9 +346,26 @@ def d4(ctx, F):
               "the new connection replaces self.connection", rc.span)
 
 
+def d5(ctx, F):
+    """the reconnecting pub/sub wrapper never parks without a wake-up arranged in the same call: while Disconnected every poll function
+    has to drive the reconnection attempt (poll_reconnect polls it, which registers the waker) before answering Pending — otherwise the
+    caller hangs although the server is reachable"""
+    n = 0
+    for p_, b in sorted(F.bodies.items()):
+        if b.crate == "selium" and (b.name or "").startswith("poll") and not b.is_coroutine and "keep_alive::pubsub" in p_ and p_.startswith("<"):
+            ctx.touch(b)
+            n += 1
+            K.pending_discipline(ctx, F, b, "C12.D5.pending-has-waker", "KeepAlive::" + b.name)
+    ctx.floor("C12.D5.poll-fns", n, 4)
+
+
 def run(ctx):
     F = ctx.facts("quick")
+    d5(ctx, F)
     d1(ctx, F)
     d2(ctx, F)
     d3(ctx, F)
+    # recovery of one requestor handle must not discard what its sibling handles are waiting for (shared pending table)
+    from . import c04
+    c04.pending_map_discipline(ctx, F, "C12.D3")
     d4(ctx, F)
